@@ -101,20 +101,24 @@ class AssemblyStats:
 
     def chromosome_name_csv(self, asm: Assembly):
         prefix = self.autosome_prefix
-        last_orig = None
-        chr_name = None
+        # Chromosome name of each Pretext scaffold seen. An unloc shares its
+        # original_name with its chromosome, which sorts before it, but not
+        # necessarily directly before it: "X1" sorts between "X" and
+        # "X_unloc_1".
+        orig_chr_name = {}
 
         csv_str = io.StringIO()
         for scffld in asm.scaffolds:
             if scffld.rank in (1, 2):
                 name = scffld.name
                 orig = scffld.original_name
-                if last_orig and orig == last_orig:
+                if orig and orig in orig_chr_name:
                     localised = "no"
+                    chr_name = orig_chr_name[orig]
                 else:
                     localised = "yes"
                     chr_name = name.replace(prefix, "", 1)
-                    last_orig = orig
+                    orig_chr_name[orig] = chr_name
                 csv_str.write(",".join((name, chr_name, localised)))
                 csv_str.write("\n")
 
@@ -139,22 +143,22 @@ class AssemblyStats:
         head_pos = csv_str.tell()
 
         prefix = self.autosome_prefix
-        chr_name = None
-        last_orig = None
         for hap, asm in hap_asm.items():
             if not hap:
                 hap = "Primary"
+            orig_chr_name = {}
             for scffld in asm.scaffolds:
                 if scffld.rank in (1, 2):
                     name = scffld.name
                     orig = scffld.original_name
-                    if last_orig and orig == last_orig:
+                    if orig and orig in orig_chr_name:
                         # Unlocs share the same original_name
                         localised = "false"
+                        chr_name = orig_chr_name[orig]
                     else:
                         localised = "true"
-                        last_orig = orig
                         chr_name = name.replace(prefix, "", 1)
+                        orig_chr_name[orig] = chr_name
                     csvr.writerow(
                         (
                             hap,
